@@ -58,8 +58,8 @@ def extra_setup(chk):
     import common as C
     import setuplane as S
     out = os.path.join(chk.dir, "mcest.out")
-    res = C.tlc("MCSetupEst", "MCSetupEst_quick.cfg", out, workers=4, timeout=300, heap="2g")
-    chk.model("MCSetupEst/MCSetupEst_quick.cfg", res)
+    res = C.tlc("MCSetupEst", "MCSetupEst_dial.cfg", out, workers=4, timeout=300, heap="2g")
+    chk.model("MCSetupEst/MCSetupEst_dial.cfg", res)
     rp = os.path.join(chk.dir, "est-replay.json")
     ob = os.path.join(chk.dir, "est-obs.ndjson")
     C.harness("setup-run", ["replay", "est", out, rp, ob], timeout=3000, env={"VERIF_SETUP_DIR": S.workdir(chk), "SETUP_WARMUP": "noverify"})
